@@ -855,7 +855,10 @@ class PauliStringLinear(PauliString):
         Returns:
             True if the linear combination is zero, False otherwise.
         """
-        return all(abs(coeff) < 1e-12 for coeff, _ in self)
+        summed_coeffs:Dict[str, complex] = defaultdict(complex)
+        for coeff, pauli in self.combinations:
+            summed_coeffs[str(pauli)] += coeff
+        return all(abs(coeff) < 1e-12 for coeff in summed_coeffs.values())
 
     def norm(self) -> float:
         """
